@@ -103,7 +103,7 @@ func (vc *VC) loopEnv(b *ssa.BasicBlock, st *State, phiOver map[ssa.Value]string
 				if nx, ok := ins.(*ssa.Next); ok {
 					if ri, ok := vc.rangeIt[nx.Iter]; ok {
 						ks := vc.pre.sortOf(ri.mt.Key())
-						return TV{T: vc.getH(st, ri.visName, "(Array "+ks+" Bool)"), Ty: types.NewMap(ri.mt.Key(), types.Typ[types.Bool]), IsSet: true}, true
+						return TV{T: vc.getH(st, ri.visName, "(Array "+ks+" Bool)"), Ty: &RawMap{Key: ri.mt.Key(), Elem: boolT}}, true
 					}
 				}
 			}
@@ -283,7 +283,9 @@ func (e *Env) eval(x Expr) TV {
 			// quantifiers over references range over allocated objects only
 			switch types.Unalias(t).Underlying().(type) {
 			case *types.Pointer, *types.Map:
-				guards = append(guards, fmt.Sprintf("(and (<= 0 %s) (< %s %s))", n, n, vc.getH(e.cur, "$next", "Int")))
+				// ... that existed in the old state of the clause (function entry / before the call):
+				// objects allocated later are reached through keys and indices, never through such a quantifier
+				guards = append(guards, fmt.Sprintf("(and (<= 0 %s) (< %s %s))", n, n, vc.getH(e.old, "$next", "Int")))
 			}
 		}
 		var inner []string
@@ -496,15 +498,15 @@ func (e *Env) index(x *EIndex) TV {
 	if v.Ty == nil {
 		e.fail("index of untyped value")
 	}
+	if rm, ok := v.Ty.(*RawMap); ok {
+		return TV{T: fmt.Sprintf("(select %s %s)", v.T, i.T), Ty: rm.Elem}
+	}
 	switch t := types.Unalias(v.Ty).Underlying().(type) {
 	case *types.Slice:
 		n, s := vc.arrHeap(t.Elem())
 		e.addSide(fmt.Sprintf("(= (idx %s %s) (+ (s_off %s) %s))", v.T, i.T, v.T, i.T))
 		return TV{T: fmt.Sprintf("(select (select %s (s_ref %s)) (idx %s %s))", vc.getH(e.cur, n, s), v.T, v.T, i.T), Ty: t.Elem()}
 	case *types.Map:
-		if v.IsSet {
-			return TV{T: fmt.Sprintf("(select %s %s)", v.T, i.T), Ty: boolT}
-		}
 		_, val := vc.mapRead(t, v.T, i.T, e.cur)
 		return TV{T: val, Ty: t.Elem()}
 	case *types.Array:
@@ -536,10 +538,10 @@ func (e *Env) binary(x *EBinary) TV {
 	case "in":
 		k := e.eval(x.X)
 		m := e.eval(x.Y)
+		if _, ok := m.Ty.(*RawMap); ok {
+			return TV{T: fmt.Sprintf("(select %s %s)", m.T, k.T), Ty: boolT}
+		}
 		if mt, ok := types.Unalias(m.Ty).Underlying().(*types.Map); ok {
-			if m.IsSet {
-				return TV{T: fmt.Sprintf("(select %s %s)", m.T, k.T), Ty: boolT}
-			}
 			ok2, _ := vc.mapRead(mt, m.T, k.T, e.cur)
 			return TV{T: fmt.Sprintf("(and (not (= %s 0)) %s)", m.T, ok2), Ty: boolT}
 		}
@@ -673,14 +675,13 @@ func (e *Env) call(x *ECall) TV {
 			return TV{T: fmt.Sprintf("(>= %s %s)", ref, vc.getH(e.old, "$next", "Int")), Ty: boolT}
 		case "card":
 			v := e.eval(x.Args[0])
+			if rm, ok := v.Ty.(*RawMap); ok {
+				r := fmt.Sprintf("(%s %s)", vc.pre.cardFn(vc.pre.sortOf(rm)), v.T)
+				e.addSide(fmt.Sprintf("(>= %s 0)", r))
+				return TV{T: r, Ty: intT}
+			}
 			if mt, ok := types.Unalias(v.Ty).Underlying().(*types.Map); ok {
-				ks := vc.pre.sortOf(mt.Key())
-				var r string
-				if !v.IsSet {
-					r = vc.mapLen(mt, v.T, e.cur)
-				} else {
-					r = fmt.Sprintf("(%s %s)", vc.pre.cardFn("(Array "+ks+" Bool)"), v.T)
-				}
+				r := vc.mapLen(mt, v.T, e.cur)
 				e.addSide(fmt.Sprintf("(>= %s 0)", r))
 				return TV{T: r, Ty: intT}
 			}
@@ -689,9 +690,99 @@ func (e *Env) call(x *ECall) TV {
 			v := e.eval(x.Args[0])
 			if mt, ok := types.Unalias(v.Ty).Underlying().(*types.Map); ok {
 				dn, ds, _, _ := vc.mapHeaps(mt)
-				return TV{T: fmt.Sprintf("(select %s %s)", vc.getH(e.cur, dn, ds), v.T), Ty: types.NewMap(mt.Key(), boolT), IsSet: true}
+				return TV{T: fmt.Sprintf("(select %s %s)", vc.getH(e.cur, dn, ds), v.T), Ty: &RawMap{Key: mt.Key(), Elem: boolT}}
 			}
 			e.fail("dom of non-map")
+		case "vals": // the value map of a Go map (meaningful on dom only)
+			v := e.eval(x.Args[0])
+			if mt, ok := types.Unalias(v.Ty).Underlying().(*types.Map); ok {
+				_, _, vn, vs := vc.mapHeaps(mt)
+				return TV{T: fmt.Sprintf("(select %s %s)", vc.getH(e.cur, vn, vs), v.T), Ty: &RawMap{Key: mt.Key(), Elem: mt.Elem()}}
+			}
+			e.fail("vals of non-map")
+		case "fieldmap": // fieldmap(T.f): the current heap of field f as a map from *T to the field type
+			tt := typeText(x.Args[0])
+			i := strings.LastIndex(tt, ".")
+			if i < 0 {
+				e.fail("fieldmap(T.f)")
+			}
+			t, err := vc.P.resolveType(tt[:i], e.pkgPath)
+			if err != nil || !isExpandedStruct(t) {
+				e.fail("fieldmap: bad struct type %s", tt[:i])
+			}
+			t = types.Unalias(t)
+			st := t.Underlying().(*types.Struct)
+			for j := 0; j < st.NumFields(); j++ {
+				if st.Field(j).Name() == tt[i+1:] {
+					return TV{T: vc.getH(e.cur, fieldHeap(t, j), vc.fieldHeapSort(t, j)), Ty: &RawMap{Key: types.NewPointer(t), Elem: st.Field(j).Type()}}
+				}
+			}
+			e.fail("fieldmap: no field %s", tt[i+1:])
+		case "with": // with(m, k, v): m updated at k
+			m, k, v := e.eval(x.Args[0]), e.eval(x.Args[1]), e.eval(x.Args[2])
+			rm, ok := m.Ty.(*RawMap)
+			if !ok {
+				e.fail("with() needs a mathematical map")
+			}
+			if v.IsNil {
+				v.T = e.nilOf(rm.Elem)
+			}
+			return TV{T: fmt.Sprintf("(store %s %s %s)", m.T, k.T, v.T), Ty: rm}
+		case "unchanged": // unchanged(pattern): objects that existed in the old state are unchanged in the named heaps
+			var conj []string
+			for _, a := range x.Args {
+				pat := typeText(a)
+				tmp := &Contract{Modifies: []string{pat}, HasMod: true, PkgPath: e.pkgPath, File: "unchanged()", Line: 0}
+				heaps := sortedKeys(vc.resolveModifies(tmp))
+				if len(heaps) == 0 {
+					e.fail("unchanged(%s): no such heap", pat)
+				}
+				for _, h := range heaps {
+					hs := vc.heapSortByName(h)
+					if s2, ok := vc.pre.heapSort[h]; ok {
+						hs = s2
+					}
+					if hs == "" {
+						e.fail("unchanged(%s): unknown heap %s", pat, h)
+					}
+					cur, old := vc.getH(e.cur, h, hs), vc.getH(e.old, h, hs)
+					if cur == old {
+						continue
+					}
+					if strings.HasPrefix(hs, "(Array Int ") {
+						vc.nfresh++
+						r := q(fmt.Sprintf("r!%d", vc.nfresh))
+						conj = append(conj, fmt.Sprintf("(forall ((%s Int)) (! (=> (and (<= 0 %s) (< %s %s)) (= (select %s %s) (select %s %s))) :pattern ((select %s %s))))", r, r, r, vc.getH(e.old, "$next", "Int"), cur, r, old, r, cur, r))
+					} else {
+						conj = append(conj, fmt.Sprintf("(= %s %s)", cur, old))
+					}
+				}
+			}
+			if len(conj) == 0 {
+				return TV{T: "true", Ty: boolT}
+			}
+			return TV{T: "(and " + strings.Join(conj, " ") + ")", Ty: boolT}
+		case "onlyarray": // onlyarray(s): in the element heap of s, only the backing array of s may differ from the old state
+			v := e.eval(x.Args[0])
+			st, ok := types.Unalias(v.Ty).Underlying().(*types.Slice)
+			if !ok {
+				e.fail("onlyarray needs a slice")
+			}
+			n, hs := vc.arrHeap(st.Elem())
+			cur, old := vc.getH(e.cur, n, hs), vc.getH(e.old, n, hs)
+			if cur == old {
+				return TV{T: "true", Ty: boolT}
+			}
+			vc.nfresh++
+			r := q(fmt.Sprintf("r!%d", vc.nfresh))
+			return TV{T: fmt.Sprintf("(forall ((%s Int)) (! (=> (not (= %s (s_ref %s))) (= (select %s %s) (select %s %s))) :pattern ((select %s %s))))", r, r, v.T, cur, r, old, r, cur, r), Ty: boolT}
+		case "emptyset":
+			t, err := vc.P.resolveType(typeText(x.Args[0]), e.pkgPath)
+			if err != nil {
+				e.fail("%v", err)
+			}
+			rm := &RawMap{Key: t, Elem: boolT}
+			return TV{T: fmt.Sprintf("((as const %s) false)", vc.pre.sortOf(rm)), Ty: rm}
 		case "hasprefix":
 			vc.pre.funDone["use:prefix"] = true
 			a, b := e.eval(x.Args[0]), e.eval(x.Args[1])
@@ -733,6 +824,12 @@ func typeText(x Expr) string {
 		return x.Op + typeText(x.X)
 	case *EStr:
 		return x.Val
+	case *EBinary:
+		if x.Op == "*" { // parsed "map[K]*V" pieces
+			return typeText(x.X) + "*" + typeText(x.Y)
+		}
+	case *EIndex:
+		return typeText(x.X) + "[" + typeText(x.I) + "]"
 	}
 	return "?"
 }
